@@ -453,3 +453,8 @@ LEVEL_NOTE = ("The full Richardson-Spirtes/Zhang marginalisation theorem (Spec.m
               "(_is_collider) decides the same definition on acyclic D/B graphs incl. bows is proved (node_level_exact), and fails "
               "with a 2-cycle (node_level_needs_acyclic).")
 TECHNIQUE = "Coq proof (enumeration exactness unbounded; marginalisation clauses by vm_compute for n<=4) + extracted-model correspondence"
+
+
+# tie (T) for the local predicates (translator/predicates.py -> Gen/Gen_Preds.v -> Tie/Preds_Cxx.v): pre_build, extra, replay of cells
+import tie_preds  # noqa: E402
+tie_preds.install(globals(), PROP)
